@@ -21,7 +21,8 @@ pub enum HOp {
     /// push one long item holding symbol i `count_i` times, according to a frequency profile
     Train { t: usize, profile: u8, k: u32 },
     Push { t: usize, item: Vec<u32>, form: u8 },
-    Merge { srcs: Vec<usize> },
+    /// `probe`: push one single-symbol item per symbol afterwards to learn the code lengths
+    Merge { srcs: Vec<usize>, probe: bool },
     Clear { t: usize },
     Clone { t: usize },
     Copy { src: usize, h: usize, dst: usize, via_owned: bool },
@@ -377,7 +378,7 @@ impl HuffScen {
                         }
                     }
                 }
-                HOp::Merge { srcs } => {
+                HOp::Merge { srcs, probe } => {
                     if pop.len() >= 6 {
                         pop.remove(0);
                     }
@@ -414,6 +415,11 @@ impl HuffScen {
                     let ni = pop.len() - 1;
                     // learn the code lengths: one single-symbol item per symbol
                     let mut lens: BTreeMap<u32, usize> = BTreeMap::new();
+                    if !*probe {
+                        out.hit("merge_without_probe_pushes");
+                        dig.u64(merged.len() as u64);
+                        continue;
+                    }
                     for sym in merged.keys() {
                         let syms = vec![*sym];
                         let vals = vec![B::from_u32(*sym)];
@@ -501,20 +507,20 @@ impl Scenario for HuffScen {
             ops.push(HOp::Train { t: 0, profile: 1, k: kk });
             let coded_src = rng.coin();
             if coded_src {
-                ops.push(HOp::Merge { srcs: vec![0] }); // 1: coded, holds one item per symbol
+                ops.push(HOp::Merge { srcs: vec![0], probe: true }); // 1: coded, holds one item per symbol
             } else {
                 ops.push(HOp::Clone { t: 0 }); // 1: raw copy
             }
             if rng.coin() {
-                ops.push(HOp::Merge { srcs: vec![0] }); // 2: coded receiver
+                ops.push(HOp::Merge { srcs: vec![0], probe: false }); // 2: coded receiver, never pushed into directly
             } else {
-                ops.push(HOp::Merge { srcs: vec![] }); // 2: receiver with an empty table
+                ops.push(HOp::Merge { srcs: vec![], probe: true }); // 2: receiver with an empty table
                 ops.push(HOp::Clear { t: 2 }); // ... turned raw
             }
             for j in 0..(2 + rng.below(8)) {
                 ops.push(HOp::Copy { src: 1, h: j * 7 + rng.below(7), dst: 2, via_owned: rng.chance(1, 4) });
             }
-            ops.push(HOp::Merge { srcs: vec![2] }); // 3: built from the receiver's statistics alone
+            ops.push(HOp::Merge { srcs: vec![2], probe: rng.coin() }); // 3: built from the receiver's statistics alone
             for _ in 0..4 {
                 let len = 1 + rng.below(4);
                 ops.push(HOp::Push { t: 3, item: (0..len).map(|_| rng.below(kk as usize) as u32).collect(), form: 0 });
@@ -533,7 +539,7 @@ impl Scenario for HuffScen {
                     ops.push(HOp::Train { t, profile, k });
                     trained = true;
                     if rng.chance(3, 4) {
-                        ops.push(HOp::Merge { srcs: vec![rng.below(8)] });
+                        ops.push(HOp::Merge { srcs: vec![rng.below(8)], probe: true });
                     }
                 }
                 1 => {
@@ -543,7 +549,7 @@ impl Scenario for HuffScen {
                 }
                 2 => {
                     let ns = rng.weighted(&[1, 5, 2, 1, 1]);
-                    ops.push(HOp::Merge { srcs: (0..ns).map(|_| rng.below(8)).collect() });
+                    ops.push(HOp::Merge { srcs: (0..ns).map(|_| rng.below(8)).collect(), probe: rng.chance(7, 8) });
                 }
                 3 => ops.push(HOp::Clear { t }),
                 4 => ops.push(HOp::Clone { t }),
@@ -572,7 +578,7 @@ impl Scenario for HuffScen {
         match op {
             HOp::Train { t, profile, k } => json!({"op":"Train","t":t,"profile":profile,"k":k}),
             HOp::Push { t, item, form } => json!({"op":"Push","t":t,"item":item,"form":form}),
-            HOp::Merge { srcs } => json!({"op":"Merge","srcs":srcs}),
+            HOp::Merge { srcs, probe } => json!({"op":"Merge","srcs":srcs,"probe":probe}),
             HOp::Clear { t } => json!({"op":"Clear","t":t}),
             HOp::Clone { t } => json!({"op":"Clone","t":t}),
             HOp::Copy { src, h, dst, via_owned } => json!({"op":"Copy","src":src,"h":h,"dst":dst,"via_owned":via_owned}),
@@ -583,7 +589,7 @@ impl Scenario for HuffScen {
         Some(match j.get("op")?.as_str()? {
             "Train" => HOp::Train { t: u("t")?, profile: u("profile")? as u8, k: u("k")? as u32 },
             "Push" => HOp::Push { t: u("t")?, item: j.get("item")?.as_array()?.iter().map(|x| x.as_u64().map(|y| y as u32)).collect::<Option<Vec<_>>>()?, form: u("form")? as u8 },
-            "Merge" => HOp::Merge { srcs: j.get("srcs")?.as_array()?.iter().map(|x| x.as_u64().map(|y| y as usize)).collect::<Option<Vec<_>>>()? },
+            "Merge" => HOp::Merge { srcs: j.get("srcs")?.as_array()?.iter().map(|x| x.as_u64().map(|y| y as usize)).collect::<Option<Vec<_>>>()?, probe: j.get("probe").and_then(J::as_bool).unwrap_or(true) },
             "Clear" => HOp::Clear { t: u("t")? },
             "Clone" => HOp::Clone { t: u("t")? },
             "Copy" => HOp::Copy { src: u("src")?, h: u("h")?, dst: u("dst")?, via_owned: j.get("via_owned")?.as_bool()? },
@@ -608,7 +614,7 @@ impl Scenario for HuffScen {
                 }
                 v
             }
-            HOp::Merge { srcs } if srcs.len() > 1 => vec![HOp::Merge { srcs: srcs[..1].to_vec() }],
+            HOp::Merge { srcs, probe } if srcs.len() > 1 => vec![HOp::Merge { srcs: srcs[..1].to_vec(), probe: *probe }],
             _ => vec![],
         }
     }
